@@ -81,6 +81,17 @@ func fieldCases() []fieldCase {
 		{Name: "ignoreunexported", Decls: in + "type PFXOut struct {\n\tName string\n\thidden int\n\tsecret *string\n}\n", Src: "PFXIn", Tgt: "PFXOut",
 			Lines: []string{"ignoreUnexported"},
 			Pairs: map[string]*PairSpec{"PFXIn→PFXOut": {IgnoreUnexported: true}}},
+		// goverter:map X X is a mapping like any other: the exact source field, not the automatic lookup
+		{Name: "map_same_name_resolves_automap_ambiguity", Decls: "type PFXAddr struct{ Street string }\ntype PFXIn struct {\n\tStreet string\n\tAddress PFXAddr\n}\ntype PFXOut struct{ Street string }\n", Src: "PFXIn", Tgt: "PFXOut",
+			Lines: []string{"autoMap Address", "map Street Street"},
+			Pairs: map[string]*PairSpec{"PFXIn→PFXOut": {Fields: map[string]*FieldSpec{"Street": fs("Street")}}}},
+		{Name: "map_same_name_exact_under_ignorecase", Decls: "type PFXIn struct {\n\tNAME string\n\tName string\n\tname2 string\n}\ntype PFXOut struct{ Name string }\n", Src: "PFXIn", Tgt: "PFXOut",
+			Lines: []string{"matchIgnoreCase", "map Name Name"}, Formats: []string{"variable"},
+			Pairs: map[string]*PairSpec{"PFXIn→PFXOut": {Fields: map[string]*FieldSpec{"Name": fs("Name")}}}},
+		{Name: "fail_map_same_name_missing_source_under_ignoremissing", Decls: "type PFXIn struct{ Name string }\ntype PFXOut struct {\n\tName string\n\tNickname string\n}\n", Src: "PFXIn", Tgt: "PFXOut",
+			Lines: []string{"ignoreMissing", "map Nickname Nickname"}, Fail: "map names a source field that does not exist (same name as the target, ignoreMissing on)"},
+		{Name: "fail_map_same_name_only_other_case_exists", Decls: "type PFXIn struct{ NAME string }\ntype PFXOut struct{ Name string }\n", Src: "PFXIn", Tgt: "PFXOut",
+			Lines: []string{"matchIgnoreCase", "map Name Name"}, Fail: "map names the source field Name, only NAME exists (an explicit path is exact)"},
 		// field settings on a method between identical types are not swallowed by skipCopySameType
 		{Name: "skipcopy_identical_types_settings_kept", Decls: "type PFXIn struct {\n\tName string\n\tSecret string\n\tTitle string\n\tL []int\n}\n", Src: "PFXIn", Tgt: "PFXIn",
 			Conv: []string{"skipCopySameType"}, Lines: []string{"ignore Secret", "map Name Title"},
